@@ -4,7 +4,9 @@
 package signaller
 
 import (
+	"github.com/bandprotocol/chain/v3/grogu/submitter"
 	"github.com/bandprotocol/chain/v3/x/feeds/types"
+	"github.com/bandprotocol/chain/v3/zzverif/vsync"
 )
 
 // Verification exports (build tag verif; added by the /verif overlay, not part of the repository).
@@ -36,4 +38,10 @@ func (s *Signaller) VerifSetView(params types.Params, feeds []types.FeedWithDevi
 	s.params = &p
 	s.signalIDToFeed = sliceToMap(feeds, func(f types.FeedWithDeviation) string { return f.SignalID })
 	s.signalIDToValidatorPrice = sliceToMap(prices, func(v types.ValidatorPrice) string { return v.SignalID })
+}
+
+// VerifRebind points a (copied) daemon at the environment of the next poll: the querier bound to the
+// chain state to read, the price service, the hand-off channel and the shared pending map.
+func (s *Signaller) VerifRebind(fq FeedQuerier, b BothanClient, ch chan<- submitter.SignalPriceSubmission, pending *vsync.Map) {
+	s.feedQuerier, s.bothanClient, s.submitCh, s.pendingSignalIDs = fq, b, ch, pending
 }
